@@ -310,17 +310,17 @@ theorem view_eq_derive (c : Ctl) (h : String) (hinv : Inv c) (hwf : WF c)
         rw [hidx.2 hne, hget]
 
 /-- **convergence_to_derive.**  Every good history, in every interleaving, after which no slice is
-    stale (every pod delete was followed by the slice controller's rewrite of the slices that referred
-    to the pod), ends in the state a cold start derives from the final objects: for every hostname the
+    stale or waiting (every pod delete was followed by the slice controller's rewrite of the slices that
+    referred to the pod, every pod a slice refers to has got its IP), ends in the state a cold start derives from the final objects: for every hostname the
     controller shows the Service, the endpoint list and (for a service with endpoints) the service
     accounts of `derive` applied to the final stores.  The side conditions on the final objects are
     decidable: faithful names (`WF`), no endpoint without targetRef at a pod's address, no object
     twice in the slice store. -/
-theorem convergence_to_derive (ops : List Op) (h : String) (hgood : AllGood {} [] ops)
-    (hst : staleRun {} [] ops = [])
+theorem convergence_to_derive (ops : List Op) (h : String) (hgood : AllGood {} [] [] ops)
+    (hst : staleRun {} [] [] ops = []) (hwt : waitRun {} [] [] ops = [])
     (hwf : WF (run {} ops).c) (hnp : NoPodAtUntargeted (run {} ops).c) (hnd : (run {} ops).c.slices.Nodup) :
     ViewAgree (hostView (run {} ops).c h) (derive (run {} ops).c h) :=
-  view_eq_derive _ h (convergence_any_order_inv ops hgood hst) hwf (convergence_any_order ops hgood).2 hnp hnd
+  view_eq_derive _ h (convergence_any_order_inv ops hgood hst hwt) hwf (convergence_any_order ops hgood).2 hnp hnd
 
 /-! ### two interleavings of the same history -/
 
@@ -454,15 +454,16 @@ theorem ViewAgree.refl (v : Option HostView) : ViewAgree v v := by
     same service accounts.  Side conditions on the final objects: faithful names, no endpoint without
     targetRef at a pod's address. -/
 theorem order_independent (ops1 ops2 : List Op) (h : String)
-    (hg1 : AllGood {} [] ops1) (hg2 : AllGood {} [] ops2)
-    (hs1 : staleRun {} [] ops1 = []) (hs2 : staleRun {} [] ops2 = [])
+    (hg1 : AllGood {} [] [] ops1) (hg2 : AllGood {} [] [] ops2)
+    (hs1 : staleRun {} [] [] ops1 = []) (hs2 : staleRun {} [] [] ops2 = [])
+    (hw1 : waitRun {} [] [] ops1 = []) (hw2 : waitRun {} [] [] ops2 = [])
     (hso : SameObjects (run {} ops1).c (run {} ops2).c)
     (hwf1 : WF (run {} ops1).c) (hwf2 : WF (run {} ops2).c) (hnu : NodesUnique (run {} ops2).c)
     (hnp1 : NoPodAtUntargeted (run {} ops1).c) (hnp2 : NoPodAtUntargeted (run {} ops2).c)
     (hnd1 : (run {} ops1).c.slices.Nodup) (hnd2 : (run {} ops2).c.slices.Nodup) :
     ViewAgree (hostView (run {} ops1).c h) (hostView (run {} ops2).c h) := by
-  have v1 := convergence_to_derive ops1 h hg1 hs1 hwf1 hnp1 hnd1
-  have v2 := convergence_to_derive ops2 h hg2 hs2 hwf2 hnp2 hnd2
+  have v1 := convergence_to_derive ops1 h hg1 hs1 hw1 hwf1 hnp1 hnd1
+  have v2 := convergence_to_derive ops2 h hg2 hs2 hw2 hwf2 hnp2 hnd2
   rw [derive_congr _ _ h hso hwf1 hwf2 hnu hnp1 hnp2 hnd1 hnd2] at v1
   exact v1.trans_symm v2
 
